@@ -34,7 +34,7 @@ REQUIRED_CLAUSES = [
     'outcome-equals-model', 'illegal-call-raises-RuntimeError', 'illegal-call-leaves-watch-unchanged',
     'elapsed-nonnegative', 'elapsed-nonnegative-backwards-clock', 'elapsed-le-maximum',
     'elapsed-is-distance-from-last-restart-while-running', 'elapsed-is-distance-to-stop-instant-while-stopped',
-    'leftover-is-max0-duration-minus-elapsed', 'leftover-nonnegative-backwards-clock',
+    'decimal-readings-consistency', 'leftover-is-max0-duration-minus-elapsed', 'leftover-nonnegative-backwards-clock',
     'leftover-without-duration', 'expired-iff-elapsed-exceeds-duration', 'expired-false-without-duration',
     'observable-state-equals-model', 'splits-nondecreasing-lengths-are-differences',
     'splits-cleared-by-restart', 'illegal-call-raises-RuntimeError-backwards-clock',
@@ -361,6 +361,8 @@ def _evaluate(K, case):
     ctx = K.ctx
     if case.get('kind') == 'with':
         return _evaluate_with(K, case)
+    if case.get('kind') == 'decimal':
+        return _evaluate_decimal(K, case)
     seq = [OPS.index(name) for name in case['sequence']]
     steps = case['steps']
     duration = case['duration']
@@ -395,6 +397,40 @@ def _evaluate(K, case):
              nontrivial=left_new)
     K.exit_args = (None, None, None)
     K.kw = True
+
+
+def _evaluate_decimal(K, case):
+    """Decimal (non-dyadic) clock readings and durations.  The model's exact arithmetic does not apply, so the oracle is
+    the statement's own definitions evaluated on what the watch reports at ONE clock reading: expired() == (elapsed() >
+    duration) and leftover() == max(0, duration - elapsed()); elapsed itself is the float difference reading - start
+    (one subtraction of two doubles, the only correctly rounded answer) while running and stop - start when stopped."""
+    ctx = K.ctx
+    t0, gaps, duration, stop_at = case['t0'], case['gaps'], case['duration'], case.get('stop_at')
+    ctx.case(('decimal', t0, tuple(gaps), duration, stop_at))
+    K.cell[0] = t0
+    try:
+        w = K.SW(duration)
+        w.start()
+        t = t0
+        stopped = None
+        for i, g in enumerate(gaps):
+            t = t + g
+            K.cell[0] = t
+            if stop_at == i:
+                w.stop()
+                stopped = t
+            e, x = w.elapsed(), w.expired()
+            l = w.leftover() if stopped is None else max(0.0, duration - e)      # leftover is legal only while running
+            want_e = (stopped if stopped is not None else t) - t0
+            K.bump('decimal-readings-consistency')
+            if e != want_e or x is not (e > duration) or l != max(0.0, duration - e):
+                ctx.fail('decimal-readings-consistency', case,
+                         {'reading': t, 'start': t0, 'stopped_at': stopped, 'elapsed': e, 'elapsed_want': want_e,
+                          'duration': duration, 'expired': x, 'expired_want': e > duration,
+                          'leftover': l, 'leftover_want': max(0.0, duration - e)})
+                return
+    except BaseException as ex:  # noqa
+        ctx.fail('decimal-readings-consistency', case, {'exc': ex})
 
 
 def _evaluate_with(K, case):
@@ -622,6 +658,29 @@ def run(ctx):
                         case = {'kind': 'with', 'body': body, 'duration': duration, 'steps': steps}
                         ctx.sample('with-statement', case)
                         _evaluate(K, case)
+        # decimal readings: the duration sits on, or one ulp beside, a value elapsed() actually takes
+        import math
+        drng = ctx.rng('decimal')
+        for i in range(ctx.pick(3000, 300000)):
+            idx += 1
+            t0 = drng.choice([0.0, 0.1, 0.2, 0.7, 1.1, 1e9 + 0.1, round(drng.uniform(0, 1000), drng.choice([1, 2, 3]))])
+            gaps = [drng.choice([0.1, 0.2, 0.3, 0.7, 1.1, 0.01, round(drng.uniform(0, 10), drng.choice([1, 2]))])
+                    for _ in range(drng.randrange(1, 5))]
+            t, seen = t0, []
+            for g in gaps:
+                t = t + g
+                seen.append(t - t0)
+            base = drng.choice(seen)
+            duration = drng.choice([base, math.nextafter(base, math.inf), math.nextafter(base, 0.0),
+                                    round(base, 1), round(base, 2), sum(gaps[:drng.randrange(1, len(gaps) + 1)])])
+            if not (duration >= 0):
+                duration = 0.0
+            case = {'kind': 'decimal', 't0': t0, 'gaps': gaps, 'duration': duration,
+                    'stop_at': drng.choice([None, None, drng.randrange(len(gaps))])}
+            if ctx.mine(idx):
+                if i % 100 == 0:
+                    ctx.sample('decimal-readings', case)
+                _evaluate(K, case)
         n_mono, n_back = ctx.pick((2500, 600), (1000000, 250000))
         for i in range(n_mono + n_back):
             idx += 1
